@@ -6,10 +6,10 @@
    every Python operation that can raise is an explicit Internal in the models, every fuel-driven
    loop has OutOfFuel.  [safe_outcome len r] is the statement of C07 on such a result:
      Ok _ | ParseErr EK_Token None | ParseErr (EK_Scanner|EK_Token) (Some p) with 0 <= p <= len. *)
-From Emmet Require Import lib.Base model.MarkupTokenizer model.MarkupParser model.MarkupConvert model.MarkupResolve
-     model.MarkupExpand gen.GenMarkupSnippets
+From Emmet Require Import lib.Base model.MarkupTokenizer model.MarkupParser model.MarkupConvert model.MarkupBem
+     model.MarkupResolve model.MarkupExpand gen.GenMarkupSnippets
      proofs.MarkupTokenizerProofs proofs.SafeTokenizer proofs.SafeParser proofs.SafeConvert proofs.SafeResolve
-     proofs.SafeExpand proofs.SafeBridge proofs.SafeBridgeTok proofs.SafeFormat proofs.SafeFull.
+     proofs.SafeExpand proofs.SafeBridge proofs.SafeBridgeTok proofs.BemProofs proofs.SafeFormat proofs.SafeFull.
 
 (* ---- stage 1: tokenizer, for ALL strings: tokens that tile the input, or the scanner error inside the input *)
 Theorem C07_tokenize_safe : forall s,
@@ -79,8 +79,22 @@ Theorem C07_user_table_wf : forall user base,
 Proof. exact table_good_app. Qed.
 Print Assumptions C07_user_table_wf.
 
-(* ---- stage 5: transform pass and formatters: total by construction (`transform_list`,
-   `stringify_markup` return plain values, not `res`; no fuel): see proofs/SafeFormat.v. *)
+(* ---- stage 5: transform pass.  Implicit tag, attribute merge, lorem header, xsl, label are total by
+   construction; the BEM addon (model/MarkupBem.v: expand_class_names, expand_short_notation, get_block_name with
+   its module-lifetime cache, update_class) has two explicit raise sites (update_class on a node whose
+   `attributes` is None: TypeError; `cl[0]`: IndexError).  For ALL nodes, ALL ancestor paths (any cache state),
+   ALL separators and ALL context classes the addon returns a node -- no precondition on the tree: *)
+Theorem C07_bem_safe : forall cfg anc n, exists r, bem cfg anc n = Ok r.
+Proof. exact bem_ok. Qed.
+Print Assumptions C07_bem_safe.
+
+(* hence the whole transform pass, for ALL configurations (bem.enabled or not) and ALL trees *)
+Theorem C07_transform_safe : forall cfg l, exists r, transform_list cfg l = Ok r.
+Proof. exact transform_total. Qed.
+Print Assumptions C07_transform_safe.
+
+(* Formatters: total by construction (`stringify_markup` returns a plain value, not `res`; no fuel): see
+   proofs/SafeFormat.v. *)
 
 (* ---- the link between tokenizer and converter.  A token list is read by a three-state automaton over token
    kinds (SafeBridge.v: plain / inside quotes / inside text braces); [W MPlain l]: inside quotes and braces there are
@@ -100,10 +114,11 @@ Print Assumptions C07_parser_output_convertible.
 
 (* ---- composition, FULL STATEMENT for the markup model (DESIGN §5 C07):
    for ALL abbreviations and ALL configurations with a well-formed snippet table (all markup syntaxes, wrap text
-   str/list/none, variables, context, comments, JSX, every output option, every repeat limit):
+   str/list/none, variables, context, comments, JSX, BEM (bem.enabled, every element/modifier separator, every
+   context class), every output option, every repeat limit):
    expand returns a value, or one of the two parse errors with 0 <= position <= length of the abbreviation (or no
    position); never Internal, never OutOfFuel.
-   Not in the model (hence not in this theorem; implementation oracle only): bem.enabled, lorem text generation,
+   Not in the model (hence not in this theorem; implementation oracle only): lorem text generation,
    markup.href rewriting, user callbacks other than the identity; CPython's recursion limit (known finding). *)
 Theorem C07_expand_safe : forall x s,
   wf_cfg (xc_m x) -> safe_outcome (length s) (expand_markup_str x s).
@@ -134,13 +149,28 @@ Example C07_parse_error_nonvacuous :
 Proof. eexists. split; vm_compute; reflexivity. Qed.
 
 Example C07_markup_parse_nonvacuous :
-  let cfg := mkMConfig [104;116;109;108]%N markup_snippets [] WNone None None false None [] false false in
+  let cfg := mkMConfig [104;116;109;108]%N markup_snippets [] WNone None None false None [] false false
+                       false [] [] None in
   wf_cfg cfg /\ exists r, markup_parse cfg [117;108;62;108;105;42;50]%N = Ok r /\ length r = 1.
 Proof. split; [exact markup_snippets_good|]. eexists. split; vm_compute; reflexivity. Qed.
+
+(* BEM configuration (bem.enabled, separators "__" and "_"): .b>.-e>.-x expands to a value, and the innermost class
+   is b__x -- the element took the block name of the top node although its parent's final class is b__e, because
+   the parent cached its own (block-less) data while it expanded itself (the module-lifetime cache of
+   get_block_name; same output as the implementation) *)
+Example C07_bem_nonvacuous :
+  let cfg := mkMConfig [104;116;109;108]%N markup_snippets [] WNone None None false None [] false false
+                       true [95;95]%N [95]%N None in
+  wf_cfg cfg /\
+  exists a b c d e, markup_parse cfg [46;98;62;46;45;101;62;46;45;120]%N =
+    Ok [ANode a b c d [ANode a b c e [ANode a b c
+          (Some [mkAAttr (Some [99;108;97;115;115]%N) (Some [VStr [98;95;95;120]%N]) VRaw false false false]) [] false] false] false].
+Proof. split; [exact markup_snippets_good|]. do 5 eexists. vm_compute. reflexivity. Qed.
 
 (* a malformed user snippet: the scanner error points into the snippet text (offset 15 > length of "bad") *)
 Example C07_user_snippet_error_nonvacuous :
   let cfg := mkMConfig [104;116;109;108]%N
-               [([98;97;100], [97;97;97;97;97;97;97;97;97;97;97;97;91;36;123])]%N [] WNone None None false None [] false false in
+               [([98;97;100], [97;97;97;97;97;97;97;97;97;97;97;97;91;36;123])]%N [] WNone None None false None [] false false
+               false [] [] None in
   markup_parse cfg [98;97;100]%N = ParseErr EK_Scanner (Some 15%Z).
 Proof. vm_compute. reflexivity. Qed.
